@@ -26,6 +26,44 @@ pub fn run(r: &Req) -> Option<String> {
     }
     let xs = crate::types::as_f64(&r.series("xs"));
     let n = xs.len();
+    if r.s("b") == "opt" || r.s("b") == "optnd" {
+        // the option view of a float container: every accessor must describe the decoded sequence
+        macro_rules! opt_table {
+            ($base:expr) => {{
+                let o = $base.opt();
+                let view = &o;
+                let mut g: Vec<String> = vec![];
+                g.push(format!("{}", GetLen::len(view)));
+                let gets: Vec<String> = (0..=n).map(|i| match Vec1View::<Option<f64>>::get(view, i) { Ok(v) => v.tok(), Err(_) => "E".into() }).collect();
+                g.push(gets.join(","));
+                // vget: bounds + null handling in one call
+                let it: Vec<Option<f64>> = TIter::<Option<f64>>::titer(view).collect();
+                g.push(toks(&it));
+                let rv: Vec<Option<f64>> = TIter::<Option<f64>>::titer(view).rev().collect();
+                g.push(toks(&rv));
+                let h = TIter::<Option<f64>>::titer(view).size_hint();
+                g.push(format!("{}:{}", h.0, h.1.map(|x| x.to_string()).unwrap_or("_".into())));
+                let mut sl: Vec<String> = vec![];
+                for a in 0..=n {
+                    for b in a..=n {
+                        let s = match Vec1View::<Option<f64>>::slice(view, a, b) {
+                            Ok(v) => if v.is_empty() { "e".to_string() } else { v.iter().map(|x| x.tok()).collect::<Vec<_>>().join("|") },
+                            Err(_) => "E".into(),
+                        };
+                        sl.push(s);
+                    }
+                }
+                g.push(if sl.is_empty() { "[]".into() } else { sl.join(",") });
+                g.push(match Vec1View::<Option<f64>>::try_as_slice(view) { Some(s) => format!("S,{}", toks(s)), None => "N".into() });
+                g.join(";")
+            }};
+        }
+        if r.s("b") == "optnd" {
+            let d = crate::backends::Array1::from_vec(xs.clone());
+            return Some(opt_table!(d));
+        }
+        return Some(opt_table!(xs));
+    }
     Some(with_view!(r.s("b"), xs, f64::NAN, view => {
         let mut g: Vec<String> = vec![];
         g.push(format!("{}", GetLen::len(view)));
@@ -96,7 +134,7 @@ pub fn generate(tier: &str, rng: &mut Rng) -> (Vec<String>, bool) {
     let thorough = tier == "thorough";
     let mut out = vec![];
     // (a) accessor table: every backend, all series over {null,0,1} up to len 4 + a few longer
-    for b in crate::backends::BACKENDS_SMALL {
+    for b in crate::backends::BACKENDS_SMALL.iter().chain(["opt", "optnd"].iter()) {
         for len in 0..=(if thorough { 6 } else { 4 }) {
             for s in all_series(&["_", "1", "2"], len) {
                 out.push(format!("acc b={} xs={}", b, join(&s)));
@@ -127,6 +165,11 @@ pub fn generate(tier: &str, rng: &mut Rng) -> (Vec<String>, bool) {
                         let b = crate::backends::BACKENDS_SIZED[k % crate::backends::BACKENDS_SIZED.len()];
                         let t = if f.nullable && k % 2 == 0 { "of64" } else { "f64" };
                         out.push(format!("{} w={} mp={} b={} t={} o=f64 xs={}{}", f.name, w, mp_tok(mp), b, t, join(&xs), tail));
+                        // the option view as input backend (null-aware single-series functions), both paths
+                        if f.nullable && f.arity == 1 && k % 2 == 0 {
+                            let p = ["ret", "out"][(k / 2) % 2];
+                            out.push(format!("{} w={} mp={} b=opt p={} t=f64 o=f64 xs={}{}", f.name, w, mp_tok(mp), p, join(&xs), tail));
+                        }
                         // every output container x path
                         let oc = ["vec", "deque", "nd", "nds"][k % 4];
                         let p = if oc == "nds" { "out" } else { ["ret", "out"][(k / 4) % 2] };
@@ -177,5 +220,5 @@ pub fn known_finding(r: &Req, imp: &str, _spec: &str) -> Option<String> {
 }
 
 pub fn rule(tier: &str) -> String {
-    format!("(a) accessor table (len, checked get at 0..=len, iteration both directions, size hint, every sub-slice a<=b<=len, contiguous view when offered) of 15 input backends (Vec, slice, [T;N], Arc<Vec>, VecDeque head offsets 0/1/3, Arc<VecDeque>, Array1, ArrayViewMut1, ArrayView1 step 1,2,3,-1,-2) against the logical sequence, exhaustive over {{null,1,2}}^len, len <= {}; (b) every catalogued function ({}) on every sized backend (round-robin) and every output container x {{returned, caller buffer}} (incl. a strided ndarray view as caller buffer, checked for writes outside its slots): full values against the single model result. Polars cells (ChunkedArray with 1..3 chunks and validity as input backend, and as output container of the returned path) are part of the thorough tier only (harness built with --features polars). non-trivial = len >= 2 with a non-null output.", if tier == "thorough" { 6 } else { 4 }, ROLL.len())
+    format!("(a) accessor table (len, checked get at 0..=len, iteration both directions, size hint, every sub-slice a<=b<=len, contiguous view when offered) of 17 input backends (the option view of a Vec and of an ndarray, Vec, slice, [T;N], Arc<Vec>, VecDeque head offsets 0/1/3, Arc<VecDeque>, Array1, ArrayViewMut1, ArrayView1 step 1,2,3,-1,-2) against the logical sequence, exhaustive over {{null,1,2}}^len, len <= {}; (b) every catalogued function ({}) on every sized backend (round-robin) and every output container x {{returned, caller buffer}} (incl. a strided ndarray view as caller buffer, checked for writes outside its slots): full values against the single model result. Polars cells (ChunkedArray with 1..3 chunks and validity as input backend, and as output container of the returned path) are part of the thorough tier only (harness built with --features polars). non-trivial = len >= 2 with a non-null output.", if tier == "thorough" { 6 } else { 4 }, ROLL.len())
 }
